@@ -612,6 +612,9 @@ pub fn dump(tcx: TyCtxt<'_>) -> J {
                     let mut fields = Vec::new();
                     for f in &v.fields {
                         let fty = tcx.type_of(f.did).instantiate_identity().skip_norm_wip();
+                        let fty = tcx
+                            .try_normalize_erasing_regions(TypingEnv::post_analysis(tcx, def), rustc_middle::ty::Unnormalized::new_wip(fty))
+                            .unwrap_or(fty);
                         let mut fo = J::obj()
                             .set("name", J::s(f.name.to_string()))
                             .set("ty", J::s(ty_str(fty)))
